@@ -13,6 +13,7 @@ import (
 	abci "github.com/cometbft/cometbft/abci/types"
 	sdk "github.com/cosmos/cosmos-sdk/types"
 	txtypes "github.com/cosmos/cosmos-sdk/types/tx"
+	"github.com/cosmos/cosmos-sdk/types/tx/signing"
 	"github.com/cosmos/cosmos-sdk/x/authz"
 	banktypes "github.com/cosmos/cosmos-sdk/x/bank/types"
 	"github.com/ethereum/go-ethereum/common"
@@ -423,7 +424,33 @@ func hostile(w *vh.World, r *vh.RNG, s *vh.Acct) *plan {
 		msg := banktypes.NewMsgSend(s.Acc(), o.Acc(), sdk.NewCoins(sdk.NewCoin(vh.Denom, sdkmath.NewInt(5))))
 		opts := &vh.CosmosOpts{Seq: &seq, Gas: 200000}
 		class := ""
-		switch r.Intn(6) {
+		switch r.Intn(7) {
+		case 6:
+			// the sender's own, correct signature replaced by its twin (r, n-s, v^1): same key, same message, but not a
+			// signature standard verification accepts (low-s rule) - anybody can compute it from a transaction in flight
+			txb, err := c.CosmosTxBuilder(s, []sdk.Msg{msg}, opts)
+			if err != nil {
+				return nil
+			}
+			sigs, err := txb.GetTx().GetSignaturesV2()
+			if err != nil || len(sigs) != 1 {
+				return nil
+			}
+			sd, ok := sigs[0].Data.(*signing.SingleSignatureData)
+			if !ok || len(sd.Signature) < 64 {
+				return nil
+			}
+			tw := append([]byte{}, sd.Signature...)
+			sv := new(big.Int).Sub(secpN, new(big.Int).SetBytes(tw[32:64]))
+			copy(tw[32:64], common.LeftPadBytes(sv.Bytes(), 32))
+			if len(tw) == 65 {
+				tw[64] ^= 1
+			}
+			sd.Signature = tw
+			if err := txb.SetSignatures(sigs[0]); err != nil {
+				return nil
+			}
+			return &plan{TxPlan: &vh.TxPlan{Kind: "cosmos-hostile", Class: "cosmos-malleated-signature", Sender: s, Bytes: c.Encode(txb)}, hostile: "cosmos-malleated-signature", isCosmos: true}
 		case 5:
 			// somebody else's signed Ethereum transaction (protected or not) inside the second of two authz exec messages
 			// of the sender's own Cosmos transaction: it may only ever run through the Ethereum lane
